@@ -287,6 +287,11 @@ async fn proxy_tcp_connection_with_synack_internal(
                     if let Err(send_err) = session.write_control_frame(synack_frame).await {
                         tracing::error!("[Proxy] Failed to send SYNACK with error: {}", send_err);
                     }
+                    // Nothing will ever be sent on this stream: end it, so that the
+                    // client releases its entries for it
+                    let _ = session
+                        .write_control_frame(Frame::control(Command::Fin, stream_id))
+                        .await;
                 }
                 return Err(err);
             }
@@ -321,6 +326,11 @@ async fn proxy_tcp_connection_with_synack_internal(
                 if let Err(send_err) = session.write_control_frame(synack_frame).await {
                     tracing::error!("[Proxy] Failed to send SYNACK with error: {}", send_err);
                 }
+                // Nothing will ever be sent on this stream: end it, so that the client
+                // releases its entries for it
+                let _ = session
+                    .write_control_frame(Frame::control(Command::Fin, stream_id))
+                    .await;
             }
             return Err(AnyTlsError::Protocol(format!(
                 "Failed to connect to {}: {}",
@@ -341,6 +351,11 @@ async fn proxy_tcp_connection_with_synack_internal(
                 if let Err(send_err) = session.write_control_frame(synack_frame).await {
                     tracing::error!("[Proxy] Failed to send SYNACK with error: {}", send_err);
                 }
+                // Nothing will ever be sent on this stream: end it, so that the client
+                // releases its entries for it
+                let _ = session
+                    .write_control_frame(Frame::control(Command::Fin, stream_id))
+                    .await;
             }
             return Err(AnyTlsError::Protocol(error_msg));
         }
